@@ -55,7 +55,11 @@ static std::string writeModel(const J &sys, const Variant &vr, const J &external
             need(c["home"].str(), d.str());
         }
     }
+    std::string nlaDep = sys["nlaDep"].str("none");
     if (nla != "none") {
+        if (nlaDep != "none") {
+            need("A", nlaDep);
+        }
         need("A", "u");
         if (nla == "pair" || nla == "mixed") {
             need("A", "w");
@@ -139,6 +143,8 @@ static std::string writeModel(const J &sys, const Variant &vr, const J &external
             } else if (nla == "pair") {
                 eqs.push_back("<apply><eq/><apply><plus/><ci>" + P("u") + "</ci><ci>" + P("w") + "</ci></apply>" + cn(5) + "</apply>");
                 eqs.push_back("<apply><eq/><apply><minus/><ci>" + P("u") + "</ci><ci>" + P("w") + "</ci></apply>" + cn(1) + "</apply>");
+            } else if (nlaDep != "none") { // u + u = 8 + dep: u follows a state or the variable of integration
+                eqs.push_back("<apply><eq/><apply><plus/><ci>" + P("u") + "</ci><ci>" + P("u") + "</ci></apply><apply><plus/>" + cn(8) + "<ci>" + P(nlaDep) + "</ci></apply></apply>");
             } else {
                 eqs.push_back("<apply><eq/><apply><plus/><ci>" + P("u") + "</ci><ci>" + P("u") + "</ci></apply>" + cn(8) + "</apply>");
             }
@@ -523,7 +529,7 @@ static void systemDrv(const J &sc, Emitter &out)
             bool isState = av["kind"].str() == "s";
             auto pick = [&](const GenRun &r) { return isState ? (idx < r.states.size() ? r.states[idx] : NAN) : (idx < r.variables.size() ? r.variables[idx] : NAN); };
             auto pickRate = [&](const GenRun &r) { return idx < r.rates.size() ? r.rates[idx] : NAN; };
-            double tol = 1e-9;
+            double tol = sys["nla"].str("none") == "none" ? 1e-9 : 1e-7; // values behind an implicit equation come from the Newton solver
             if (exp) {
                 double want = q((*exp)[av["comp"].str()]);
                 f.set("okC", J(closeTo(pick(rc), want, tol))).set("okPy", J(closeTo(pick(rp), want, tol)));
